@@ -145,3 +145,53 @@ func Eval(p Params, stack [][]byte, ctx TxCtx, check SigChecker) (bool, error) {
 	}
 	return len(st) == 0, nil
 }
+
+// Build assembles the opening script from the template (minimal pushes), used
+// as an independent reference for the repository's script builder.
+func Build(p Params) []byte {
+	var b []byte
+	push := func(d []byte) {
+		b = append(b, byte(len(d)))
+		b = append(b, d...)
+	}
+	num := func(n uint32) {
+		switch {
+		case n == 0:
+			b = append(b, 0x00)
+		case n <= 16:
+			b = append(b, byte(0x50+n))
+		default:
+			var le []byte
+			for v := n; v > 0; v >>= 8 {
+				le = append(le, byte(v))
+			}
+			if le[len(le)-1]&0x80 != 0 {
+				le = append(le, 0x00)
+			}
+			push(le)
+		}
+	}
+	const (
+		opCheckSig    = 0xac
+		opNotIf       = 0x64
+		opSize        = 0x82
+		opEqualVerify = 0x88
+		opSha256      = 0xa8
+		opEndIf       = 0x68
+		opElse        = 0x67
+		opCSV         = 0xb2
+	)
+	push(p.Maker)
+	b = append(b, opCheckSig, opNotIf)
+	push(p.Maker)
+	b = append(b, opCheckSig, opNotIf, opSize)
+	push([]byte{0x20})
+	b = append(b, opEqualVerify, opSha256)
+	push(p.Hash)
+	b = append(b, opEqualVerify, opEndIf)
+	push(p.Taker)
+	b = append(b, opCheckSig, opElse)
+	num(p.CSV)
+	b = append(b, opCSV, opEndIf)
+	return b
+}
